@@ -89,3 +89,67 @@ harness!(cap_reserve__u4f, cap_reserve, U4F);
 harness!(cap_reserve__s8_4a, cap_reserve, S8_4A);
 harness!(cap_reserve__s8_8g4, cap_reserve, S8_8G4);
 harness!(cap_reserve__s8_e, cap_reserve, S8_E);
+
+fn cap_shrink(sh: Shape, fit: bool) {
+    let mut m = build_kv(sh, 1);
+    assume_distinct(&m);
+    let q: u8 = kani::any();
+    let mc: usize = if fit { 0 } else { kani::any() };
+    let pre_q = ref_get(&m, &q);
+    let len = m.len();
+    let cap0 = m.capacity();
+    let b0 = m.verif_parts().0.verif_nslots();
+    let l0 = old_len(&m);
+    reset_counters();
+    if fit {
+        m.shrink_to_fit();
+    } else {
+        m.shrink_to(mc);
+    }
+    let sq = scan(&m, &q);
+    assert!(sq.val == pre_q, "[C10] shrink_to lost or altered an element");
+    assert!(m.len() == len && old_len(&m) == l0, "[C10] shrink_to changed the number of elements");
+    assert!(m.verif_parts().0.verif_nslots() <= b0, "[C10] shrink_to enlarged the table");
+    let lower = if mc < cap0 { mc } else { cap0 };
+    assert!(m.capacity() >= len && m.capacity() >= lower, "[C10] shrink_to left capacity() < max(len(), min(m, previous capacity))");
+    assert!(acct::allocs() <= 1, "[C03] shrink_to allocated more than one table");
+    post_inv(&m, &sq);
+    assert!(m.get(&q).copied() == pre_q, "[C10] a lookup fails after shrink_to");
+    kani::cover!(m.verif_parts().0.verif_nslots() < b0, "cls: shrink_to shrank the table");
+    kani::cover!(true, "reach: end of harness");
+    core::mem::forget(m);
+}
+fn cap_shrink_to(sh: Shape) {
+    cap_shrink(sh, false)
+}
+fn cap_shrink_to_fit(sh: Shape) {
+    cap_shrink(sh, true)
+}
+harness!(cap_shrink_to__u16_2, cap_shrink_to, U16_2);
+harness!(cap_shrink_to__s16_4a, cap_shrink_to, S16_4A);
+harness!(cap_shrink_to__s8_e, cap_shrink_to, S8_E);
+harness!(cap_shrink_to_fit__s16_4a, cap_shrink_to_fit, S16_4A);
+harness!(cap_shrink_to_fit__s8_e, cap_shrink_to_fit, S8_E);
+harness!(cap_shrink_to_fit__u8_3t, cap_shrink_to_fit, U8_3T);
+
+#[kani::proof]
+#[kani::unwind(34)]
+fn cap_with_capacity() {
+    let n: usize = kani::any();
+    let q: u8 = kani::any();
+    reset_counters();
+    let mut m = M::with_capacity_and_hasher(n, S { id: 1 });
+    assert!(m.capacity() >= n && m.len() == 0, "[C10] with_capacity(n) gives capacity() < n");
+    let k: u8 = kani::any();
+    let v: u8 = kani::any();
+    if n > 0 {
+        reset_counters();
+        assert!(m.insert(k, v).is_none(), "[C01] insert into a fresh map found a key");
+        assert!(acct::allocs() == 0, "[C10] inserting into a map built with_capacity(n > 0) reallocated");
+    }
+    let sq = scan(&m, &q);
+    post_inv(&m, &sq);
+    kani::cover!(n > 0 && n <= 14, "cls: capacity within the model bound");
+    kani::cover!(true, "reach: end of harness");
+    core::mem::forget(m);
+}
